@@ -13,7 +13,7 @@ TRUSTED = [
 ]
 RULE = ("all 9 toggle pairs x section outcomes {valid, silent, malformed, challenge-then-silent} for each section x check_app_id on/off over server states whose "
         "app id is the main id, the dedicated id, another id, or unconstrained (extracted Spec generator); exhaustive over the matrix for each state; "
-        "Valve games of the definitions table (those whose definition switches the app-id check off, and others) through the generic entry point with extra request settings, every field independently unset / set, against a server of the game and one of another game; "
+        "Valve games of the definitions table (those whose definition switches the app-id check off, and others) through the generic entry point with extra request settings, every field independently unset / set, against a server of the game and one of another game; Unreal 2 games through the generic entry point without extra settings x rules / players section valid, silent, malformed; "
         "non-trivial = some section is not valid, skipped, or the app id is rejected; distinct by case bytes")
 OUTCOMES = ["valid", "silent", "malformed", "chsilent"]
 
@@ -101,7 +101,37 @@ def gen_cases(tier, rng):
                 cases.append({"id": "u2tog/%d/%d%d/%s/%s" % (seed, tp, tm, op, om), "hex": u2_case(7778, (tp, tm), None, script),
                               "meta": {"stream": "unreal2-toggles", "expected": want, "tp": tp, "tr": tm, "op": op, "orr": om, "check": True, "badgame": False, "unreal2": True}})
     cases += extra_settings_rows(tier, rng)
+    cases += unreal2_generic_rows(tier, rng)
     return cases
+
+
+def unreal2_generic_rows(tier, rng):
+    """Unreal 2 games of the definitions table through the generic entry points without extra settings: the protocol's
+    documented defaults apply (players Try, mutators and rules Enforce), so a silent or malformed rules section fails the query"""
+    import json as _json
+    import C14
+    from vlib import BUILD
+    games = [g["id"] for g in _json.load(open(BUILD + "/gen/games.json")) if g["protocol"] == "Unreal2"]
+    out = []
+    for gi, gid in enumerate(games[:(3 if tier == "quick" else len(games))]):
+        for k in range(2 if tier == "quick" else 8):
+            seed = rng.fork("u2g/%s/%d" % (gid, k)).next() >> 1
+            full = u2_specs([seed], (1, 1))[0]
+            noplayers = u2_specs([seed], (0, 1))[0]
+            evs = full["events"]
+            info, ti = evs[0], evs.index(None)
+            mr_dgs, pl_dgs = evs[1:ti], evs[ti + 1:]
+            for om, op in itertools.product(OUTCOMES[:3], OUTCOMES[:3]):
+                script = [info] + ((mr_dgs + [None]) if om == "valid" else ([None] if om == "silent" else [b"\x80\x00\x00\x00\x01\x05\x41"]))
+                script += pl_dgs if op == "valid" else ([None] if op == "silent" else [b"\x80\x00\x00\x00\x02\x01"])
+                if om != "valid":
+                    want = "Err(PacketBad)" if om == "malformed" else "Err(PacketReceive)"
+                else:
+                    want = "Ok(" + (full if op == "valid" else noplayers)["expected"] + ")"
+                for port in (None, 7000 + gi):
+                    out.append({"id": "u2generic/%s/%d/%s-%s/%s" % (gid, k, om, op, "p" if port else "d"), "hex": C14.paths_case(gid, "", port, None, script),
+                                "meta": {"stream": "unreal2-generic-defaults", "expected": want, "tp": 1, "tr": 2, "op": op, "orr": om, "check": True, "badgame": False, "game": gid}})
+    return out
 
 
 def generic_extra_case(gid, port, extra, events):
@@ -161,6 +191,11 @@ def oracle(case, impl, side):
     m = case["meta"]
     if "PANIC" in (res or "") or res == "ABORT":
         return ("panic", "panicked: " + side[:200])
+    if m["stream"] == "unreal2-generic-defaults":
+        if res != m["expected"]:
+            return ("generic-defaults:unreal2", "game %s through the generic entry point, rules section %s / players section %s: got %s, the protocol's defaults (players Try, mutators and rules Enforce) give %s"
+                    % (m["game"], m["orr"], m["op"], (res or "")[:200], m["expected"][:200]))
+        return None
     if m["stream"] == "generic-extra-settings":
         if m["server"] == "foreign" and m["check"] and res != "Err(BadGame)":
             return ("extra-settings:app-id-not-checked", "game %s with extra settings %s (app id check %s) against a server of another game: got %s, expected Err(BadGame)"
